@@ -10,11 +10,14 @@ Variable oc : bool.
 Variable v : ver.
 Notation cspec := (combine_spec H v).
 Notation bdata := (bt_data H v).
-Notation stored_at := (stored_at H v).
-Notation rpeaks_at := (rpeaks_at H v).
+Variable sat : list (Z * entry) -> Z -> bt -> Prop.
+Hypothesis SO : sat_ok H v sat.
+Notation rpeaks_at := (rpeaks_at sat).
+Notation spine_at := (spine_at H v sat).
+Notation last_spine := (last_spine H v sat).
 Notation rbag_den := (rbag_den H v).
 Notation rbagd := (rbagd H v).
-Notation inv := (inv H v).
+Notation inv := (inv H v sat).
 
 Lemma pop_n_ok : forall n t, Z.of_nat n <= t_count t ->
   exists t', pop_n oc n t = Ok t' /\ t_count t' = t_count t - Z.of_nat n /\
@@ -34,7 +37,7 @@ Qed.
 (** Walking down the right spine of a perfect tree: the left children hanging off it are the
     peaks that remain when the last leaf is removed. [A] lists them last-first. *)
 Lemma spine_ok : forall j T o t fuel,
-  perfect j T -> stored_at (t_stored t) o T -> (j < fuel)%nat ->
+  perfect j T -> spine_at (t_stored t) o T -> (j < fuel)%nat ->
   exists (A : list (nat * bt)) d,
     spine_loop fuel t (Stored (o + bt_size T - 1))
       = Ok (rev (rlinks (trs A) (o + total (trs A))), Z.of_nat j) /\
@@ -45,11 +48,11 @@ Lemma spine_ok : forall j T o t fuel,
 Proof.
   induction j as [|j IH]; intros T o t fuel P S F; destruct T as [d|l r]; cbn [perfect] in P; try (exfalso; exact P);
     (destruct fuel as [|f]; [lia|]).
-  - exists [], d. cbn [ProofsStore.stored_at] in S. cbn [spine_loop bt_size].
+  - exists [], d. cbn [ProofsStore.spine_at] in S. cbn [spine_loop bt_size].
     replace (o + 1 - 1) with o by lia. rewrite (resolve_stored t o _ S). cbn [tbind e_kind].
     cbn [trs hts map rlinks rev total rleaves app ProofsStore.rpeaks_at incr bt_leaves].
     repeat split; auto. constructor.
-  - destruct P as [Pl Pr]. assert (S' := S). cbn [ProofsStore.stored_at] in S'. destruct S' as (Sl & Sr & E).
+  - destruct P as [Pl Pr]. assert (S' := S). cbn [ProofsStore.spine_at] in S'. destruct S' as (Sl & Sr & E).
     cbn [spine_loop bt_size].
     replace (o + (bt_size l + bt_size r + 1) - 1) with (o + bt_size l + bt_size r) by lia.
     rewrite (resolve_stored t _ _ E). cbn [tbind e_kind bt_kind].
@@ -95,7 +98,7 @@ Proof.
   intros NE P I PK BD G E2 K K0.
   assert (ET : trs (Arem ++ Rdone) = trs Arem ++ trs Rdone) by (unfold trs; rewrite map_app; reflexivity).
   rewrite ET in PK, G.
-  destruct (bag_loop_ok H oc v (trs Arem) (trs Rdone) e2 t lk0 b h0) as (t1 & lk1 & BL & S1 & C1 & R1 & _ & D1); auto.
+  destruct (bag_loop_ok H oc v sat SO (trs Arem) (trs Rdone) e2 t lk0 b h0) as (t1 & lk1 & BL & S1 & C1 & R1 & _ & D1); auto.
   { destruct Rdone; [congruence|discriminate]. }
   rewrite BL. cbn [tbind].
   pose proof (total_nonneg (trs (Arem ++ Rdone))) as TNN.
@@ -105,25 +108,25 @@ Proof.
   constructor; cbn [set_root t_stored t_gen t_count t_root]; auto.
   - destruct Arem; cbn [app]; [exact NE|discriminate].
   - rewrite ET, C2, C1. replace (t_count t - k) with e2 by lia.
-    eapply rpeaks_at_ext; [|exact PK]. intros i Hi. rewrite L2, S1; [reflexivity|]. rewrite C1. lia.
+    eapply (rpeaks_at_ext H v sat SO); [|exact PK]. intros i Hi. rewrite L2, S1; [reflexivity|]. rewrite C1. lia.
   - rewrite C2, C1. lia.
   - rewrite ET, C2, C1, G2. replace (t_count t - k) with e2 by lia. exact D1.
 Qed.
 
 Theorem truncate_inv t R b h0 :
-  inv t R -> seg_ok b h0 (rleaves (trs R)) -> t_count t <= u32_max ->
+  inv t R -> last_spine t R -> seg_ok b h0 (rleaves (trs R)) -> t_count t <= u32_max ->
   (1 < length (rleaves (trs R)))%nat ->
   exists t' R' d,
     truncate_leaf H oc v t = Ok (t', t_count t - t_count t') /\
     inv t' R' /\ rleaves (trs R) = rleaves (trs R') ++ [d].
 Proof.
-  intros IV G B NL. assert (IV' := IV). destruct IV' as [NE P I PK C RD].
+  intros IV LS G B NL. assert (IV' := IV). destruct IV' as [NE P I PK C RD].
   destruct R as [|[j T] rest]; [congruence|].
   assert (P' := P). inversion P' as [|? ? PT Prest]; subst. cbn [fst snd] in PT.
   pose proof (total_nonneg (trs rest)) as TN. pose proof (bt_size_pos T) as ST1.
   assert (BTot : total (trs ((j, T) :: rest)) <= u32_max) by (rewrite <- C; exact B).
   destruct (total_head_le _ _ _ BTot) as [BT Brest].
-  destruct (resolve_bag H v t _ _ _ RD PK) as (en & Res & ED & SH).
+  destruct (resolve_bag H v sat SO t _ _ _ RD PK) as (en & Res & ED & SH).
   assert (LC : leaf_count en = Ok (lsum (hts ((j, T) :: rest)))).
   { apply (bag_count H v en ((j, T) :: rest) b h0); auto. }
   assert (FJ : (j < FUEL)%nat).
@@ -142,7 +145,7 @@ Proof.
     cbn [Nat.eqb e_left e_kind bt_kind tbind].
     unfold in_left, in_right. cbn [tbind e_left e_right e_kind bt_kind].
     set (o := t_count t - bt_size (BN l r)) in *.
-    assert (S' := ST). cbn [ProofsStore.stored_at] in S'. destruct S' as (Sl & Sr & E).
+    assert (S' := LS). unfold ProofsAppend.last_spine in S'. cbn [trs map snd ProofsStore.spine_at] in S'. fold o in S'. destruct S' as (Sl & Sr & E).
     destruct (spine_ok j r (o + bt_size l) t FUEL Pr Sr ltac:(lia)) as (A & d & SP & PA & IA & FA & RA & LA & SA).
     replace (o + bt_size l + bt_size r - 1) with (o + bt_size l + bt_size r - 1) by lia.
     rewrite SP. cbn [tbind].
@@ -166,7 +169,7 @@ Proof.
     + unfold trs. rewrite map_app, total_app. cbn [map snd total]. fold (trs A). unfold o. lia.
     + unfold k, o. lia.
     + unfold k. lia.
-    + rewrite TT. pose proof (inv_count H v _ _ IV2) as C2.
+    + rewrite TT. pose proof (inv_count H v sat _ _ IV2) as C2.
       exists t', (A ++ [(j, l)]), d. split; [|split].
       * f_equal. f_equal. rewrite C2. unfold trs. rewrite map_app, total_app. cbn [map snd total]. fold (trs A).
         unfold k, o in *. lia.
@@ -190,14 +193,15 @@ Proof.
       * constructor; cbn [set_root t_stored t_gen t_count t_root]; auto.
         -- discriminate.
         -- eapply incr_weaken; [|exact I1]. lia.
-        -- eapply rpeaks_at_ext; [|exact PK']. intros i Hi. rewrite lookup_remove.
+        -- eapply (rpeaks_at_ext H v sat SO); [|exact PK']. intros i Hi. rewrite lookup_remove.
            destruct (t_count t - 1 =? i) eqn:X; [lia|reflexivity].
         -- lia.
       * cbn [bt_leaves]. reflexivity.
     + (* even: walk down the right spine of the last peak *)
       unfold in_left, in_right, e_left, e_right. rewrite EK. cbn [tbind].
       set (o := t_count t - bt_size T) in *.
-      destruct (spine_ok (S j) T o t FUEL PT ST FJ) as (A & d & SP & PA & IA & FA & RA & LA & SA).
+      assert (LS' := LS). unfold ProofsAppend.last_spine in LS'. cbn [trs map snd] in LS'. fold o in LS'.
+      destruct (spine_ok (S j) T o t FUEL PT LS' FJ) as (A & d & SP & PA & IA & FA & RA & LA & SA).
       replace (t_count t - 1) with (o + bt_size T - 1) by (unfold o; lia).
       rewrite SP. cbn [tbind].
       unfold complete. rewrite LC. cbn [tbind hts map fst]. fold (hts rest').
@@ -217,7 +221,7 @@ Proof.
         rewrite LA, app_assoc in G. destruct (seg_ok_app _ _ _ _ G) as [G1 _]. exact G1.
       * unfold trs. rewrite map_app, total_app. fold (trs A). fold (trs rest). unfold o. lia.
       * unfold k, o. lia.
-      * rewrite TT. pose proof (inv_count H v _ _ IV2) as C2.
+      * rewrite TT. pose proof (inv_count H v sat _ _ IV2) as C2.
         exists t', (A ++ rest), d. split; [|split].
         -- f_equal. f_equal. rewrite C2. unfold trs. rewrite map_app, total_app. fold (trs A). fold (trs rest).
            unfold k, o in *. lia.
